@@ -339,11 +339,19 @@ def head_streams(rnd, thorough):
     # header-line zoo
     for line in ["Upgrade:websocket", "Upgrade:  websocket  ", "Upgrade : websocket", "upgrade: websocket",
                  "UPGRADE: WEBSOCKET", " Upgrade: websocket", "Upgrade", ":", ": x", "a:b:c", "Upgrade:",
-                 "Set-Cookie: a=1", "Set-Cookie: b=2", "set-cookie:", "X:\t y \t", "X: caf\u00e9", "X: \u00a0y",
+                 "Set-Cookie: a=1", "Set-Cookie: b=2", "set-cookie:", "X:\t y \t",
+                 "Set-Cookie: a/b=1", "Set-Cookie: (a)=1; Domain=x.co", "Set-Cookie: a,b=1", "Set-Cookie: a@b=1; Path=/", "Set-Cookie: {a}=1",
+                 "Set-Cookie: ok=1; Domain=x.co; a?=2", "Set-Cookie: =", "Set-Cookie: ;;;", "Set-Cookie: a=\"unterminated", "X: caf\u00e9", "X: \u00a0y",
                  "\u0130: x", "X: a\x1c", "\x1cX: a", "Content-Length: 12"]:
         out.append(response("101", []).replace(b"\r\n\r\n", b"\r\n" + line.encode("utf-8") + b"\r\n\r\n"))
         out.append(response("101", [("Set-Cookie", "z=9")]).replace(
             b"\r\n\r\n", b"\r\n" + line.encode("utf-8") + b"\r\nSet-Cookie: q=1\r\n\r\n"))
+    # Set-Cookie values the cookie parser may refuse, on responses that are otherwise ACCEPTED (101) or FOLLOWED (3xx):
+    # only then does the value reach the cookie jar
+    for ck in ["a/b=1", "(a)=1; Domain=x.co", "a,b=1", "a@b=1; Path=/", "{a}=1", "ok=1; Domain=x.co; a?=2", "=", ";;;",
+               "a=\"unterminated", "a=1; Domain=", "a=1; Max-Age=x", "a=1; Expires=never", "\u00e9=1; Domain=x.co", "a=\u00e9"]:
+        out.append(response("101", good_headers(k) + [("Set-Cookie", ck)]))
+        out.append(response("302", [("Location", "ws://h/"), ("Set-Cookie", ck)], reason="Found"))
     # values of the VALIDATED headers that are well-formed UTF-8 but not ASCII (an otherwise acceptable 101 response)
     right = accept_of(k)
     for v in ["caf\u00e9", right + "\u00e9", "\u00e9" + right, right[:10] + "\u0130" + right[10:], "\u212a" + right[1:],
